@@ -54,9 +54,12 @@ def run(chk, prog):
                     if t.get("k") == "uint":
                         subs.append(prog.fn_of_closure(norm(d_raw)))
     allowed = {"metrics::Metrics::mark_gc_freed", "metrics::Metrics::mark_gc_untraced"}
-    extra = sorted(set(subs) - allowed)
+    # a private helper that is only reachable through the two reviewed subtracting updates is part of them (their
+    # own shape - which counter, which amount - is decided by the metric-helper-shape rule, which interprets helpers)
+    from gcv.props import common
+    extra = sorted(f for f in set(subs) - allowed if common.escapes(prog, f, allowed) is not None)
     chk.inst("no-new-unsigned-subtraction", "metrics.rs", not extra,
-             detail="unsigned subtraction on a counter outside mark_gc_freed / mark_gc_untraced: %s" % extra,
+             detail="unsigned subtraction on a counter reachable without going through mark_gc_freed / mark_gc_untraced: %s" % extra,
              sample={"unsigned_subtraction_sites": sorted(set(subs))})
     chk.extra["unsigned_subtraction_sites"] = sorted(set(subs))
 
